@@ -4,10 +4,12 @@ package interp
 
 import (
 	"fmt"
+	"go/constant"
 	"go/types"
 	"os"
 	"sort"
 	"strings"
+	"sync"
 
 	"golang.org/x/tools/go/packages"
 	"golang.org/x/tools/go/ssa"
@@ -36,6 +38,8 @@ type World struct {
 	LoadSeconds        float64
 	ZnFiles            []string // source files of the Zn packages that were loaded
 	Tier               int
+	tabMu              sync.Mutex
+	allFuncs           map[string]*ssa.Function
 }
 
 // InterpretedStd lists standard-library packages whose SSA is executed (pure
@@ -135,6 +139,42 @@ func (w *World) classify1(fn *ssa.Function) fnClass {
 		return fnInterp
 	}
 	return fnForeign
+}
+
+// stringTable returns the constant string keys of the map literals built
+// inside the named function (member tables of the built-in types), read from
+// the SSA of the current tree.
+func (w *World) stringTable(fnName string) []string {
+	w.tabMu.Lock()
+	defer w.tabMu.Unlock()
+	if w.allFuncs == nil {
+		w.allFuncs = map[string]*ssa.Function{}
+		for f := range ssautil.AllFunctions(w.Prog) {
+			if p := f.Package(); p != nil && w.interpPkg[p] {
+				w.allFuncs[f.String()] = f
+			}
+		}
+	}
+	f := w.allFuncs[fnName]
+	if f == nil {
+		return nil
+	}
+	var keys []string
+	seen := map[string]bool{}
+	for _, b := range f.Blocks {
+		for _, in := range b.Instrs {
+			if mu, ok := in.(*ssa.MapUpdate); ok {
+				if c, ok := mu.Key.(*ssa.Const); ok && c.Value != nil && c.Value.Kind() == constant.String {
+					k := constant.StringVal(c.Value)
+					if !seen[k] {
+						seen[k] = true
+						keys = append(keys, k)
+					}
+				}
+			}
+		}
+	}
+	return keys
 }
 
 // PureFuncs: functions without side effects whose calls with symbolic
